@@ -169,7 +169,7 @@ def gen_fcfg(rng):
         # no epsilon productions in half of the cases (the Earley loop treats them specially)
         prods = [p for p in prods if p["body"]] or [{"head": "S", "hf": {}, "body": [ts[0]], "bf": [{}]}]
     return {"vars": vs, "terms": ts, "feats": feats, "asub": asub, "prods": prods, "start": "S",
-            "via_text": rng.chance(0.5)}
+            "via_text": rng.chance(0.5), "alt_lines": rng.chance(0.4)}
 
 
 def _ftext(d):
@@ -187,8 +187,20 @@ def fcfg_text(g):
         b = []
         for x, f in zip(p["body"], p["bf"]):
             b.append(x + ("[" + _ftext(f) + "]" if f else ""))
-        lines.append(h + " -> " + (" ".join(b) if b else "epsilon"))
-    return "\n".join(lines) + "\n"
+        lines.append([h, " ".join(b) if b else "epsilon"])
+    if g.get("alt_lines"):
+        # the documented `|` syntax: productions with the same head (and the same head features) on one line.  All
+        # alternatives of a line share the head's variables, as the reference does per production
+        merged = []
+        for h, b in lines:
+            for m in merged:
+                if m[0] == h:
+                    m[1] += " | " + b
+                    break
+            else:
+                merged.append([h, b])
+        lines = merged
+    return "\n".join(h + " -> " + b for h, b in lines) + "\n"
 
 
 def build_fcfg(g):
